@@ -222,6 +222,60 @@ def oracle(sc, r):
     return bad
 
 
+def preset_family(ctx):
+    """The TLS mode chosen through the documented presets and connection URLs, observed by a peer that only speaks clear text:
+    what reaches it in clear must be what the mode allows (the handshake itself starts with a TLS record, octet 0x16)."""
+    from smtp import step, run_scenarios
+    import re as _re
+    modes = [({"url": "smtps://127.0.0.1:{port}"}, "wrapper"), ({"url": "smtp://127.0.0.1:{port}?tls=required"}, "required"),
+             ({"url": "smtp://127.0.0.1:{port}?tls=opportunistic"}, "opportunistic"), ({"url": "smtp://127.0.0.1:{port}"}, "none"),
+             ({"url": "smtp://user:pw@127.0.0.1:{port}?tls=required"}, "required"), ({"url": "smtps://user:pw@127.0.0.1:{port}"}, "wrapper"),
+             ({"preset": "relay"}, "wrapper"), ({"preset": "starttls_relay"}, "required")]
+    scs, meta = [], []
+    for spec, mode in modes:
+        for offer in (True, False):
+            for fl in ("sync", "tokio"):
+                caps = b"250-srv\r\n" + (b"250-STARTTLS\r\n" if offer else b"") + b"250 AUTH PLAIN\r\n"
+                script = [step("none", b"220 hi\r\n"), step("line", caps), step("line", b"220 go ahead\r\n" if offer else b"250 ok\r\n")] + [step("line", b"250 ok\r\n")] * 2 + \
+                         [step("line", b"354 go\r\n"), step("data", b"250 queued\r\n"), step("line", b"221 bye\r\n")]
+                op = dict(spec); op["op"] = "transport"
+                scs.append({"id": 700000 + len(scs), "flavor": fl, "timeout_ms": 600, "server_cap_ms": 900, "servers": [script],
+                            "ops": [op, {"op": "tsend", "from": hx(b"a@x.org"), "to": [hx(b"b@y.org")], "msg": hx(b"secret content")}, {"op": "tdrop"}]})
+                meta.append((spec, mode, offer, fl))
+    res = run_scenarios(scs)
+    bad = []
+    for (spec, mode, offer, fl), r, sc in zip(meta, res, scs):
+        ctx.count()
+        srv = (r.get("servers") or [None])[0]
+        got = b"".join(unhx(e[1]) for e in (srv["events"] if srv else []) if e[0] in ("R", "R+"))
+        tls_at = got.find(b"\x16\x03")
+        clear = got if tls_at < 0 else got[:tls_at]
+        cmds = [l.split(b" ")[0].upper() for l in clear.split(b"\r\n") if l]
+        what = None
+        if mode == "wrapper":
+            if clear or tls_at != 0:
+                what = "implicit TLS: the client wrote %r before any TLS record" % clear[:60]
+        elif mode == "required":
+            allowed = {b"EHLO", b"STARTTLS", b"QUIT"}
+            if any(c not in allowed for c in cmds):
+                what = "required TLS: %r written in clear" % [c for c in cmds if c not in allowed][:3]
+            elif offer and tls_at < 0:
+                what = "required TLS: STARTTLS was offered but no handshake was started"
+        elif mode == "opportunistic":
+            if offer and (b"MAIL" in cmds or tls_at < 0):
+                what = "opportunistic TLS: STARTTLS was offered but the client went on in clear (%r)" % cmds[:6]
+            if not offer and b"MAIL" not in cmds:
+                what = "opportunistic TLS: not offered, the message should have been sent in clear (%r)" % cmds[:6]
+        else:
+            if b"STARTTLS" in cmds or tls_at >= 0 or b"MAIL" not in cmds:
+                what = "no TLS configured: expected a clear-text session, saw %r" % cmds[:6]
+        if what:
+            bad.append((sc, "%s %s, STARTTLS %s: %s" % (fl, spec, "offered" if offer else "not offered", what)))
+    ctx.cov["oracle"]["modes_of_presets_and_urls_seen_by_a_clear_text_peer"] = {"scenarios": len(scs), "failures": len(bad)}
+    if bad:
+        ctx.violation({"kind": "oracle", "entry": "relay / starttls_relay / from_url", "what": bad[0][1], "scenario": bad[0][0], "failures": len(bad)})
+
+
 def run(ctx):
     scs = gen(ctx.tier)
     ctx.note("%d TLS scenarios" % len(scs))
@@ -270,6 +324,7 @@ def run(ctx):
             why.append("written inside TLS: impl %r, model %r" % (L(r["tls"])[:8], mtls[:8]))
         if why:
             cbad.append((sc, r, "; ".join(why)))
+    preset_family(ctx)
     ctx.cov["oracle"]["server_view_clear_vs_tls"] = {"scenarios": len(scs), "failures": len(obad)}
     ctx.cov["correspondence"]["tls_connection_model"] = {"scenarios": len(scs), "disagreements": len(cbad)}
     ctx.cov["rule"] = ("TLS mode {none, opportunistic, required, wrapper} x server {no STARTTLS, STARTTLS ok, refused 454/502, 220 then garbage, 220 then close, 220 followed by injected plaintext} x certificate {trusted+right name, trusted+wrong name, "
